@@ -612,6 +612,11 @@ func oracle(c core.Case, out []string) []core.Finding {
 			add("lightrpc."+kn+".accepts-falsified."+fieldOf(kind, mut),
 				fmt.Sprintf("%s relayed an answer whose field %s was falsified (bound through %s) (op: %.200s)", kn, mut, committedTable(strings.TrimSuffix(kind, "byhash"), fieldOf(kind, mut)), op))
 		}
+		// request binding: a genuine answer, but for another height / hash / key than the caller asked for
+		if mut != "none" && m["class"] == "request" && accepted {
+			add("lightrpc."+kn+".relays-answer-for-other-request."+fieldOf(kind, mut),
+				fmt.Sprintf("%s relayed a genuine answer for ANOTHER request than the caller's (%s) (op: %.200s)", kn, mut, op))
+		}
 		// soundness, semantically, for the proof-carrying answers
 		if accepted && kind == "tx" && m["prove"] == "1" {
 			h := int64(atoi(m["rht"]))
